@@ -824,6 +824,9 @@ func (x *Exec) argRef(st *State, v Val) string {
 		if t == nil || t.V == nil {
 			return ""
 		}
+		if isContextImpl(t.Dyn) {
+			return "" // contexts are immutable values by their API contract
+		}
 		switch t.Dyn.Underlying().(type) {
 		case *types.Pointer, *types.Map, *types.Slice:
 			return x.argRef(st, t.V)
@@ -924,4 +927,14 @@ func (x *Exec) staticCallOrd(fn *ssa.Function, in ssa.Instruction, name string) 
 		x.callOrds[fn] = m
 	}
 	return m[in]
+}
+
+func isContextImpl(T types.Type) bool {
+	if p, ok := T.(*types.Pointer); ok {
+		T = p.Elem()
+	}
+	if n, ok := T.(*types.Named); ok && n.Obj().Pkg() != nil {
+		return n.Obj().Pkg().Path() == "context"
+	}
+	return false
 }
